@@ -1,4 +1,5 @@
 import Mochi.Model.Broker
+import Mochi.Lemmas.AckRes
 /-!
 # C08 — Inbound QoS 2 messages are forwarded exactly once
 
@@ -13,16 +14,36 @@ identifier in use" — a failure code — for MQTT 5 (`C08_retransmit_reason`).
 namespace Mochi.Broker
 open Mochi.Topics
 
+/-- a retransmitted QoS 2 PUBLISH (record still present) is not forwarded, whatever the state of the
+    connection: the handler's result is that of `return cl.WritePacket(PUBREC 0x91)` -/
+theorem C08_retransmit_ackRes (s : Server) (i q id : Nat) (d r : Bool) (topic payload : Str) (me : Nat) (al : Option Nat)
+    (pki : Msg) (hin : (getObj s i).inline = false) (hvalid : isValidFilter topic true = true)
+    (hq : (getObj s i).recvQuota ≠ 0) (hacl : aclOk s (getObj s i).id topic true = true)
+    (hrec : flGet (getObj s i) id = some pki) (ht : pki.type = 5) :
+    processPublish s i q d r id topic payload me al = ackRes s i 5 id 0x91 := by
+  unfold processPublish
+  have hq' : ((getObj s i).recvQuota == 0) = false := by simpa using hq
+  simp [hin, hvalid, hq', hacl, hrec, ht]
+
+/-- … so the state is unchanged on a dead connection too (the write fails, nothing else happens) -/
+theorem C08_retransmit_state_unchanged (s : Server) (i q id : Nat) (d r : Bool) (topic payload : Str) (me : Nat) (al : Option Nat)
+    (pki : Msg) (hin : (getObj s i).inline = false) (hvalid : isValidFilter topic true = true)
+    (hq : (getObj s i).recvQuota ≠ 0) (hacl : aclOk s (getObj s i).id topic true = true)
+    (hrec : flGet (getObj s i) id = some pki) (ht : pki.type = 5) :
+    (processPublish s i q d r id topic payload me al).1 = s := by
+  rw [C08_retransmit_ackRes s i q id d r topic payload me al pki hin hvalid hq hacl hrec ht]
+  exact ackRes_fst s i 5 id 0x91
+
 /-- a retransmitted QoS 2 PUBLISH (record still present) is not forwarded: nothing but one PUBREC to
     the publisher, state unchanged -/
 theorem C08_retransmit_not_forwarded (s : Server) (i q id : Nat) (d r : Bool) (topic payload : Str) (me : Nat) (al : Option Nat)
     (pki : Msg) (hin : (getObj s i).inline = false) (hvalid : isValidFilter topic true = true)
     (hq : (getObj s i).recvQuota ≠ 0) (hacl : aclOk s (getObj s i).id topic true = true)
-    (hrec : flGet (getObj s i) id = some pki) (ht : pki.type = 5) :
+    (hrec : flGet (getObj s i) id = some pki) (ht : pki.type = 5)
+    (hopen : (getObj s i).isOpen = true) (hpg : (getObj s i).peerGone = false) :
     processPublish s i q d r id topic payload me al = (s, writeAck s i 5 id 0x91, none) := by
-  unfold processPublish
-  have hq' : ((getObj s i).recvQuota == 0) = false := by simpa using hq
-  simp [hin, hvalid, hq', hacl, hrec, ht]
+  rw [C08_retransmit_ackRes s i q id d r topic payload me al pki hin hvalid hq hacl hrec ht]
+  exact ackRes_live s i 5 id 0x91 (dead_of_live hopen hpg)
 
 /-- F08: the reason code of that PUBREC is 0x91, which signals failure to an MQTT 5 client -/
 theorem C08_retransmit_reason : (0x91 : Nat) ≥ 0x80 := by decide
